@@ -91,7 +91,7 @@ public:
   }
   virtual void punch_msg(const char *str) {
     std::ostringstream o;
-    o << "{\"k\":\"pmsg\",\"n\":" << cur_n() << ",\"on\":" << (punch_on ? 1 : 0) << ",\"f\":" << (fopen_() ? 1 : 0) << ",\"s\":" << jstr(str) << "}";
+    o << "{\"k\":\"pmsg\",\"n\":" << cur_n() << ",\"on\":" << (punch_on ? 1 : 0) << ",\"f\":" << (fopen_() ? 1 : 0) << ",\"prp\":" << (PhreeqcPtr->pr.punch ? 1 : 0) << ",\"s\":" << jstr(str) << "}";
     rec(o.str());
     Guard g(depth); IPhreeqc::punch_msg(str);
   }
